@@ -135,8 +135,8 @@ func Mutate(tx []byte, class string, attacker *Acct, r *rng.R) []byte {
 		}
 		st.Signatures[n-1] = action.Signature{Signer: attacker.Pub, Signed: attacker.Sign(st.RawTx.RawBytes())}
 	case "btcec-empty-signer":
-		// S24: every address the signatures speak for is blanked in the payload, and every
-		// signature is replaced by a BTCEC public key with bytes that are no signature at all
+		// regression of S24: every address the signatures speak for is blanked in the payload, and
+		// every signature is replaced by a BTCEC public key with bytes that are no signature at all
 		d := st.Data
 		for _, g := range st.Signatures {
 			h, err := g.Signer.GetHandler()
@@ -162,7 +162,7 @@ func Mutate(tx []byte, class string, attacker *Acct, r *rng.R) []byte {
 // transactions every mutant class is offered to CheckTx (must be rejected) and delivered directly
 // inside A's block (must fail and leave A's state equal to B's, which never saw the mutant).
 func RunSig(seed uint64, histories, blocks, maxTxs int) (*Result, error) {
-	res := NewResult("sig", seed, "case = one generated block history on twin replicas (plus one scripted replay of the proved BTCEC counterexample); for fresh valid signed transactions of every generated kind each of the 17 mutant classes (payload digit, fee price/gas/currency, memo, type, substituted signer key, flipped signature byte, no signatures, swapped signer order, extra signature, re-signed by another key, changed key algorithm tag, BTCEC tag, flipped byte of the LAST signature, substituted LAST signer, signer addresses blanked + BTCEC keys + junk signatures) is re-serialised canonically, offered to CheckTx and delivered directly in a block on replica A only, classes rotating per kind so that every kind meets every applicable class; the unmutated original is offered to CheckTx on the same state as a positive control; monitor: every mutant has CheckTx code != 0, DeliverTx code != 0, the application stays open, and A's application hash equals B's; non-trivial = at least 10 mutants of at least 3 kinds delivered and at least 3 originals admitted; distinct = SHA-256 of the history lines")
+	res := NewResult("sig", seed, "case = one generated block history on twin replicas (plus one scripted regression scenario: the formerly executed EXPIRE_VOTES naming the empty address with a BTCEC key and no signature); for fresh valid signed transactions of every generated kind each of the 17 mutant classes (payload digit, fee price/gas/currency, memo, type, substituted signer key, flipped signature byte, no signatures, swapped signer order, extra signature, re-signed by another key, changed key algorithm tag, BTCEC tag, flipped byte of the LAST signature, substituted LAST signer, signer addresses blanked + BTCEC keys + junk signatures) is re-serialised canonically, offered to CheckTx and delivered directly in a block on replica A only, classes rotating per kind so that every kind meets every applicable class; the unmutated original is offered to CheckTx on the same state as a positive control; monitor: every mutant has CheckTx code != 0, DeliverTx code != 0, the application stays open, and A's application hash equals B's; non-trivial = at least 10 mutants of at least 3 kinds delivered and at least 3 originals admitted; distinct = SHA-256 of the history lines")
 	root := rng.New(seed*911 + 29)
 	kindRound, pairs := map[string]int{}, map[string]bool{}
 	seenHist := map[[32]byte]bool{}
@@ -301,7 +301,7 @@ func RunSig(seed uint64, histories, blocks, maxTxs int) (*Result, error) {
 	if histories > 0 && res.Counters["originals-admitted"] == 0 {
 		return nil, fmt.Errorf("sig: no unmutated transaction was admitted by CheckTx in %d histories: the mutant verdicts would be vacuous", histories)
 	}
-	// the scripted witness of OLP.Props.C04.btcec_counterexample, executed on the implementation
+	// the scripted regression of the repaired BTCEC defect (/repo d272d58), executed on the implementation
 	if err := S24Probe(seed, res); err != nil {
 		return nil, err
 	}
@@ -309,7 +309,8 @@ func RunSig(seed uint64, histories, blocks, maxTxs int) (*Result, error) {
 	return res, nil
 }
 
-// S24Probe replays the proved counterexample `btcec_counterexample` on the real application:
+// S24Probe replays the scenario of the repaired defect S24 (BTCEC keys verified nothing and had
+// the empty address; fixed in /repo d272d58) on the real application:
 // block 1 creates a proposal (properly signed); block 2 carries, on replica A only, an
 // EXPIRE_VOTES whose required signer is the empty address, "signed" by a BTCEC public key with
 // bytes that are no signature. The property demands CheckTx != 0, DeliverTx != 0, A == B.
